@@ -5,31 +5,47 @@ import (
 	"sync"
 
 	"github.com/IrineSistiana/mosdns/v5/pkg/pool"
+	"github.com/IrineSistiana/mosdns/v5/zz_verif/vs"
 )
 
 var poisonOnce sync.Once
+
+// PoisonOnRelease: overwrite released buffers with 0xDD (default). A harness may
+// switch it off for a scenario to model the other legal behaviour of a pool - a
+// released buffer keeps its bytes until its next user overwrites them - under
+// which a use-after-release sends / returns stale but well-formed data.
+var PoisonOnRelease = true
 
 // PoisonPool replaces pkg/pool's allocator (go-bytes-pool over the runtime's
 // sync.Pool, whose reuse pattern depends on the GC and on earlier executions)
 // by a deterministic one the harness owns:
 //
-//   - GetBuf returns a fresh buffer of the same length and capacity class as
-//     the original, filled with 0xDD (the real pool hands out buffers with
-//     arbitrary old contents, so code may not rely on what is in there);
 //   - ReleaseBuf checks the capacity class like the original (same panic),
-//     overwrites the buffer with 0xDD and never hands it out again.
+//     overwrites the buffer with 0xDD and puts it on a LIFO free list of its
+//     class that lives for the current execution only;
+//   - GetBuf hands out the most recently released buffer of the class, else a
+//     fresh one filled with 0xDD (the real pool hands out buffers with
+//     arbitrary old contents, so code may not rely on what is in there).
 //
-// A buffer that is read after its release, released twice or used without
-// being written therefore shows up as 0xDD garbage in every execution, and an
-// execution never depends on what an earlier one left in the pool.
+// A buffer that is read after its release, or used without being written, shows
+// 0xDD or - once somebody else got it - that user's bytes; a buffer released
+// twice is handed to two users; and an execution never depends on what an
+// earlier one left in the pool.
 func PoisonPool() {
 	poisonOnce.Do(func() {
-		const bitLen = 20 // pkg/pool: bytesPool.NewPool(20)
+		const bitLen = 20            // pkg/pool: bytesPool.NewPool(20)
+		var free [bitLen + 2]vs.Pool // per execution (vs.Pool forgets its items when a new execution starts)
 		pool.GetBuf = func(size int) *[]byte {
 			if size < 0 {
 				panic("bytesPool: negative buffer size")
 			}
 			bit := bits.Len(uint(size))
+			if bit <= bitLen {
+				if bp, ok := free[bit].Get().(*[]byte); ok {
+					*bp = (*bp)[:size]
+					return bp
+				}
+			}
 			var b []byte
 			if bit > bitLen {
 				b = make([]byte, size)
@@ -51,10 +67,13 @@ func PoisonPool() {
 			if c != (1<<bit)-1 {
 				panic("bytesPool: invalid buf")
 			}
-			s := (*b)[:c]
-			for i := range s {
-				s[i] = 0xDD
+			if PoisonOnRelease {
+				s := (*b)[:c]
+				for i := range s {
+					s[i] = 0xDD
+				}
 			}
+			free[bit].Put(b)
 		}
 	})
 }
